@@ -225,11 +225,31 @@ def params(rng, tier):
 class Spec(unit.UnitSpec):
     pid = "C26"
     modules = ["MmtkModel.Props.C26"]
-    theorems = []
+    theorems = ["Mmtk.Runs.runs_disjoint", "Mmtk.Runs.run_end_unique", "Mmtk.Runs.inv_step", "Mmtk.Runs.wf_reach",
+                "Mmtk.Runs.free_all_coalesces", "Mmtk.Runs.free_all_restores_single_run",
+                "Mmtk.Runs.alloc_fails_only_if_no_run", "Mmtk.Runs.alloc_makes_run",
+                "Mmtk.FreeList.getNext_setNext", "Mmtk.FreeList.cross_head_coalesce_double_allocates"]
     component = "fl"
-    relation = "Mmtk.FreeList.* ≙ util::freelist::FreeList on IntArrayFreeList and RawMemoryFreeList"
-    assumptions = []
-    rule = ""
+    relation = ("Mmtk.FreeList.* (table of i32 entries, every method, masks) ≙ util::freelist::FreeList on "
+                "IntArrayFreeList (parent + child lists sharing the table) and RawMemoryFreeList (private mmapped window)")
+    assumptions = [
+        "abstract layer (Mmtk.Runs): theorems hold for histories satisfying Runs.Pre — alloc takes a fitting free run "
+        "of its own head, free is applied to the start of an allocated run, a free never coalesces into a run on another "
+        "head's list (callers separate heads' regions by uncoalescable marks), clear_uncoalescable is not applied "
+        "between two free runs",
+        "concrete layer: the refinement of the table model to Mmtk.Runs (history_refines) is NOT proved; the table model "
+        "is tied to the code by the exact differential (returned units, raw table dumps, sizes, getters), and the "
+        "abstract spec is replayed as the oracle on the implementation's answers",
+        "unit numbers and sizes stay far below 2^31 (no i32 wrap); unit counts ≤ 4096 in the differential",
+        "a panic drops the list (both sides); alloc on a corrupted circular list may not terminate — the malformed "
+        "stream uses only loop-free operations after the corrupting one"]
+    rule = ("seeded histories over lists of 1..4096 units, grains 1..units, 1..16 heads, each emitted for the IntArray "
+            "and (when the initial runs coincide) the RawMemory implementation: single-head alloc/free/alloc_from_unit/"
+            "size/info/set+clear_uncoalescable with raw table dumps and a final free-everything phase; multi-head "
+            "histories following the FreeListPageResource/Map32 protocol (parent hands out marked chunks, children free "
+            "regions between marks, allocate, release, give chunks back); malformed stream (double free, free of a "
+            "non-start unit, out-of-range units, size 0 / negative, cross-head free); non-trivial = a split and a "
+            "coalescing free both occurred; distinct = distinct (history, outputs)")
 
     def gen(self, rng, tier, debug):
         n = 260 if tier == "quick" else 6000
@@ -388,7 +408,11 @@ class Spec(unit.UnitSpec):
         return {"ops": h, "case_kind": modes, "panic_lines": {"n": panics}}
 
 
-META = {"text": "", "note": "", "technique": ""}
+META = {
+    "text": 'Abstract layer proved in Lean for all protocol-respecting histories on any number of heads: runs pairwise disjoint and inside the list, owner constant over a run, alloc may fail only if the head owns no fitting run, free_all_coalesces (once everything is free every remaining boundary is an uncoalescable mark or a pristine initial grain boundary; a single initial run is restored exactly). Concrete layer: the table of i32 entries with every method and mask transcribed, compared exactly (returned units, raw table dumps, sizes, getters) with IntArrayFreeList (parent + children) and RawMemoryFreeList; entry-level lemma getNext_setNext; the whole-history refinement of the table to the abstract spec is not proved (partial).',
+    "note": 'Partial: history_refines (concrete table refines Mmtk.Runs) is stated as a target only; the link concrete→abstract is the differential plus the abstract spec replayed as oracle. Observation (not a violation under the callers\' protocol): coalescing into a run on another head\'s list corrupts both lists and hands the same units out twice (Lean witness cross_head_coalesce_double_allocates; callers prevent it with uncoalescable marks). grow_freelist(0) on a grown RawMemoryFreeList and alloc on a corrupted list do not terminate.',
+    "technique": 'Lean 4 proof (invariant over a pointwise partition spec, induction over histories) + exact differential of a transcribed table model + spec-replay oracle',
+}
 
 
 def main(argv=None):
